@@ -575,6 +575,30 @@ impl ThreadLocalActorSpawner {
     }
 }
 
+#[cfg(feature = "slawlor_ractor_verif")]
+impl ThreadLocalActorSpawner {
+    /// Verification hook: a spawner whose receive loop (identical to the one used by
+    /// [ThreadLocalActorSpawner::new]) runs on the caller's current `LocalSet` instead of
+    /// a dedicated OS thread, so that a harness owning the schedule of that `LocalSet`
+    /// also owns the schedule of thread-local actors.
+    pub fn verif_on_current_local_set() -> Self {
+        let (send, mut recv) = crate::concurrency::mpsc_unbounded();
+        crate::concurrency::spawn_local(async move {
+            while let Some(SpawnArgs {
+                builder,
+                reply,
+                name: _name,
+            }) = recv.recv().await
+            {
+                let fut = builder();
+                let handle = crate::concurrency::spawn_local(fut);
+                _ = reply.send(AbortOnDropHandle::new(handle));
+            }
+        });
+        Self { send }
+    }
+}
+
 impl ActorCell {
     /// Spawn an actor of the given type as a thread-local child of this actor, automatically starting the actor.
     /// This [ActorCell] becomes the supervisor of the child actor.
